@@ -4,10 +4,11 @@
 //
 // Case:  plen=<n> total=<n> done=<01..> seed=<n> files=<a,b,c> | op ...
 //   R:i:b:l / C:i:b:l  the peer sends REQUEST / CANCEL (batched until the next W)
-//   D:0 / D:1          choke decision: the first D:0 of a case is the peer's INTERESTED (batched; the
-//                      real choke_queue unchokes it when read); later ones go through
-//                      Peer::set_snubbed on the real choke_queue (D:0 after advancing 11 s).
-//                      A D that is not the first D:0 must not follow R/C directly (generator puts W:0).
+//   D:0                unchoke decision of the real choke_queue: the peer's INTERESTED (batched, takes
+//                      effect in order when read); if the peer was snubbed by D:1 it is un-snubbed first
+//                      and 11 s of virtual time pass.
+//   D:1                choke decision: Peer::set_snubbed(true) on the real choke_queue, at once.
+//                      Must not follow R/C/D:0 directly (generator puts W:0 in between).
 //   W:k / W:inf        flush the batch, let the library-side socket accept k more bytes, step to
 //                      quiescence, the peer reads everything available; snapshot.
 // Output: see ocaml/c05_driver.ml; after " || " oracle-only fields (not compared with the model):
@@ -118,27 +119,29 @@ static std::string run_case(Session& S, const std::string& line) {
   Session::set_send_budget(port, 0);
 
   std::string batch, snaps, err;
-  bool interested_sent = false;
   for (auto& o : ops) {
     char kind = o.empty() ? '?' : o[0];
     if (kind == 'R' || kind == 'C') {
       uint32_t a, b, c;
       if (sscanf(o.c_str() + 1, ":%u:%u:%u", &a, &b, &c) != 3) return "BADCASE";
       batch += kind == 'R' ? WirePeer::request(a, b, c) : WirePeer::cancel(a, b, c);
-    } else if (o == "D:0" && !interested_sent) {
-      interested_sent = true;
-      batch += WirePeer::interested();
-    } else if (kind == 'D') {
-      if (!batch.empty()) return "BADCASE:D-after-message";
-      bool c = o == "D:1";
+    } else if (o == "D:0") {
+      // unchoke decision = the peer's INTERESTED reaching the real choke_queue (takes effect when the
+      // batch is read, in order). After a snub: un-snub first (the queue then waits for INTERESTED)
+      // and let 11 s of virtual time pass (choke_queue refuses to unchoke within 10 s of the last change).
       torrent::PeerConnectionBase* pcb = S.find_connection(T, port);
-      if (pcb != nullptr && pcb->m_up_choke.choked() != c) {
-        if (!c) S.advance_us(11 * 1000000);
+      if (pcb != nullptr && pcb->m_up_choke.snubbed()) {
+        S.advance_us(11 * 1000000);
         pcb = S.find_connection(T, port);
-        if (pcb != nullptr) {
-          S.force_choke(pcb, c);
-          if (pcb->m_up_choke.choked() != c) err = "ERR:choke-not-applied";
-        }
+        if (pcb != nullptr) S.force_choke(pcb, false);
+      }
+      batch += WirePeer::interested();
+    } else if (o == "D:1") {
+      if (!batch.empty()) return "BADCASE:D1-after-message";
+      torrent::PeerConnectionBase* pcb = S.find_connection(T, port);
+      if (pcb != nullptr && !pcb->m_up_choke.choked()) {
+        S.force_choke(pcb, true);
+        if (!pcb->m_up_choke.choked()) err = "ERR:choke-not-applied";
       }
     } else if (kind == 'W') {
       int64_t k = o == "W:inf" ? (1ll << 40) : std::stoll(o.substr(2));
